@@ -131,8 +131,8 @@ def jobs(tier, seed):
     out = []
     for j in c02.jobs(tier, seed):
         f = j['family']
-        if 'manual-showdown' in f:
-            continue
+        if 'manual-showdown' in f or 'partial-shows' in f:
+            continue      # explicit show / muck / partial-show choices of the players are not automatic decisions
         j = dict(j)
         out.append(j)
     # manual showdown/killing steps with default arguments in every admissible order of the kill step
